@@ -263,7 +263,7 @@ def line (toks : List String) (impl : String) : Res :=
   | ["write", len, seed, mode] =>
     match len.toNat?, seed.toNat? with
     | some len, some seed =>
-      if mode == "ok" || mode == "fail" || mode == "tpc" then writeRes len seed mode impl else bad "frame write: mode"
+      if mode == "ok" || mode == "fail" || mode == "tpc" || mode == "tpcb" then writeRes len seed mode impl else bad "frame write: mode"
     | _, _ => bad "frame write: args"
   | ["read", cap, en, hex] =>
     match capOf cap, parseEnd en, segsOfHex hex with
